@@ -17,7 +17,7 @@ EXTENDS Locale, Alphabets, TLC, Json
 
 CONSTANT MaxN
 
-VARIABLES kind, n, head
+VARIABLES kind, n, head, us
 
 (* forty-eight distinct members of each kind, in an order that is not the   *)
 (* sorted one; lengths cover every valid length of the production           *)
@@ -58,9 +58,12 @@ Toks ==
            IN Split(SubSeq(base, 1, cut) \o <<195, 129>> \o SubSeq(base, cut + 1, Len(base)))
 
 Kinds6 == {"variants", "attrs", "keywords", "tfields", "tags", "all", "odd"}
+(* us: every third separator is an underscore (the two separators must be    *)
+(* interchangeable at any length, C09 / C13)                                  *)
 Init == kind \in Kinds6 /\ head \in 1..3 /\ n \in 0..(IF kind = "odd" THEN 3 * MaxN ELSE MaxN)
+        /\ us \in BOOLEAN /\ (us => kind \in {"variants", "all"} /\ n % 4 = 1)
         /\ (kind \in {"keywords", "tfields", "attrs", "tags", "all"} => n >= 1)
-Spec == Init /\ [][FALSE]_<<kind, n, head>>
+Spec == Init /\ [][FALSE]_<<kind, n, head, us>>
 
 RLI  == ParseLITokens(Toks)
 RLoc == ParseLocTokens(Toks)
@@ -76,7 +79,7 @@ RoundTrip == RLoc.zone = "accept" =>
                 LET s == SerLoc(RLoc.val)  r == ParseLoc(s) IN r.zone = "accept" /\ r.val = RLoc.val /\ Len(s) <= Len(Join(Toks))
 
 CaseRec ==
-    [k |-> "parse", toks |-> Toks,
+    [k |-> "parse", toks |-> Toks, seps |-> [j \in 1..(Len(Toks) - 1) |-> IF us /\ j % 3 = 0 THEN 95 ELSE 45],
      li |-> [ok |-> RLI.ok, err |-> RLI.err, val |-> RLI.val, ser |-> SerLI(RLI.val)],
      loc |-> [zone |-> RLoc.zone, why |-> RLoc.why, val |-> RLoc.val, ser |-> SerLoc(RLoc.val)]]
 EmitCase == PrintT("CASE " \o ToJson(CaseRec))
